@@ -186,7 +186,7 @@ func runOne(t *testing.T, sched simrt.Schedule, body func(w *simWorld) []Violati
 		st.Crashes = w.Crashes
 		st.StoreErrs = simStore.Errs
 		st.Tasks = len(w.rt.Tasks())
-		st.StateHash = hashOf(disk.Dump())
+		st.StateHash = hashOf(stableDump(disk.Dump()))
 		st.SchedHash = hashOf(sched)
 		if w.rt.KeepTrace {
 			for _, l := range w.rt.Trace {
@@ -315,4 +315,18 @@ func loadKnownFindings() map[string]bool {
 		}
 	}
 	return knownFindings
+}
+
+// stableDump drops per-process random material (bcrypt salts) from a Disk dump.
+func stableDump(d string) string {
+	var out []string
+	for _, l := range strings.Split(d, "\n") {
+		if strings.HasPrefix(l, "auth ") {
+			if i := strings.Index(l, " secret="); i > 0 {
+				l = l[:i]
+			}
+		}
+		out = append(out, l)
+	}
+	return strings.Join(out, "\n")
 }
